@@ -17,8 +17,8 @@ SHAPES = {
 }
 
 
-def gen_clean_network(rng, nmax):
-    names = rng.sample(list(SHAPES), rng.randint(1, 3))
+def gen_clean_network(rng, nmax, min_topologies=1):
+    names = rng.sample(list(SHAPES), rng.randint(min_topologies, 3))
     N = rng.randint(8, nmax)
     edges = {}          # frozenset -> (name, id)
     motifs = []
@@ -69,7 +69,7 @@ def gen_target(rng, net, mode):
         table = {}
         for x, y in itertools.combinations_with_replacement(classes, 2):
             w = Fraction(rng.randint(1, 12), rng.choice([1, 2, 4]))
-            drop = mode != "full" and rng.random() < 0.3 and (x + y) not in realized
+            drop = mode != "full" and rng.random() < 0.45 and (x + y) not in realized
             if drop and mode == "sparse":
                 continue
             if drop and mode == "zeros":
@@ -112,9 +112,12 @@ class MCMCProp(Prop):
     model_scope = ("modelled: get_all_edges (as a set), is_edge_choice_suitable, get_motif_vertices, swap_condition (pairing, proposal "
                    "attributes as coded, Metropolis ratio), application of an accepted swap; not modelled: the two while-loops of rewire()")
 
+    modes = ["full", "full", "sparse", "zeros"]
+    min_topologies = 1
+
     def gen(self, rng, i, tier):
-        net = gen_clean_network(rng, 24 if tier == "quick" else 60)
-        mode = rng.choice(["full", "full", "sparse", "zeros"])
+        net = gen_clean_network(rng, 24 if tier == "quick" else 60, self.min_topologies if rng.random() < 0.8 else 1)
+        mode = rng.choice(self.modes)
         c = dict(net)
         c["target"] = gen_target(rng, net, mode)
         c["target_mode"] = mode
